@@ -56,11 +56,23 @@ fn judge_bytes<G: AffineRepr>(env: &Env<G>, o: &mut CaseOut, prog: &crate::dsl::
     }
 }
 
+/// A statement built only from commit / allocate / allocate_multiplier: no linear constraint at all.
+fn unconstrained_program(gates: usize) -> crate::dsl::Program {
+    use crate::dsl::{Op, Val};
+    use crate::sc::Sc;
+    let mut ops = vec![Op::Commit { v: Sc::I(5), blind: Sc::R(9) }];
+    for i in 0..gates {
+        ops.push(Op::AllocMul { l: Val::Lit(Sc::I(2 + i as i64)), r: Val::Lit(Sc::R(40 + i as u64)) });
+    }
+    ops.push(Op::Allocate { val: Val::Lit(Sc::I(7)) });
+    crate::dsl::Program { tlabel: 0, pre: vec![], ops }
+}
+
 fn run_case<G: AffineRepr>(env: &Env<G>, c: &Case) -> CaseOut {
     let mut o = CaseOut::new();
     o.evals = 0;
     let cfg = GenCfg { q: 2, depth: 1, ..GenCfg::simple(c.n1, c.n2) };
-    let prog = gen_program(c.seed, &cfg);
+    let prog = if c.n1 == 1003 { unconstrained_program(3) } else { gen_program(c.seed, &cfg) };
     let po = prove::<G>(env, &prog, &[], &env.bp, c.seed ^ 4);
     let proof = match &po.proof {
         Ok(p) => p,
@@ -130,6 +142,21 @@ fn run_case<G: AffineRepr>(env: &Env<G>, c: &Case) -> CaseOut {
                 }
             }
             if matches!(c.work, Work::Fields) {
+                // an altered proof far back in a long batch (index >= 32)
+                for i in [1usize, 3] {
+                    if let Some(alt) = apply(&hm, &Mut::Scalar(i, 0), &env.pc.B).and_then(|m| m.to_real()) {
+                        let mut items: Vec<(&crate::dsl::Program, &[G], &R1CSProof<G>)> = (0..34).map(|_| (&prog, &po.vs[..], proof)).collect();
+                        items.push((&prog, &po.vs[..], &alt));
+                        items.push((&prog, &po.vs[..], proof));
+                        o.evals += 1;
+                        let (r, _, _) = batch::<G>(env, &items, &env.bp, c.seed ^ 0x4d);
+                        if r.is_ok() {
+                            o.violate("batch-accepted-altered-late", format!("a batch of 36 accepts a proof with {}+1 at index 34", crate::mirror::SCALAR_NAMES[i]), json!({"program": prog}));
+                        } else {
+                            o.count("batch[34 x original, altered, original]:rejected", 1);
+                        }
+                    }
+                }
                 // every point field offset by a point outside the prime-order subgroup (cofactor curves)
                 if let Some(t) = env.torsion {
                     use ark_ec::CurveGroup;
@@ -213,15 +240,16 @@ fn run_case<G: AffineRepr>(env: &Env<G>, c: &Case) -> CaseOut {
 
 fn cases<G: AffineRepr>(ctx: &Ctx, env: &Env<G>) -> Vec<Case> {
     let shapes: Vec<(usize, usize)> = match ctx.tier {
-        Tier::Quick => vec![(3, 0), (2, 3)],
-        Tier::Thorough => vec![(0, 0), (1, 0), (2, 0), (3, 0), (7, 0), (0, 1), (1, 1), (2, 3), (5, 6), (16, 0), (9, 20)],
+        // (1003, 0) is the marker of the statement without any linear constraint
+        Tier::Quick => vec![(3, 0), (2, 3), (1003, 0)],
+        Tier::Thorough => vec![(0, 0), (1, 0), (2, 0), (3, 0), (7, 0), (0, 1), (1, 1), (2, 3), (5, 6), (16, 0), (9, 20), (1003, 0)],
     };
     let mut v = vec![];
     for (si, (n1, n2)) in shapes.iter().enumerate() {
         let seed = ctx.sub_seed(4, si as u64);
         // encoding length: probe once
         let cfg = GenCfg { q: 2, depth: 1, ..GenCfg::simple(*n1, *n2) };
-        let prog = gen_program(seed, &cfg);
+        let prog = if *n1 == 1003 { unconstrained_program(3) } else { gen_program(seed, &cfg) };
         let po = prove::<G>(env, &prog, &[], &env.bp, seed ^ 4);
         let len = po.proof.as_ref().ok().and_then(|p| p.to_bytes().ok()).map(|b| b.len()).unwrap_or(0);
         let bits = len * 8;
